@@ -43,7 +43,7 @@ ASSUMPTIONS = ["clients are cooperative: a switch happens between two public cal
                "single-threaded caller can interleave", "each data client owns a distinct sample's stream (two clients on the very same "
                "stream object would share its cursor by definition)"]
 EXPECTED_PROBES = ["reseek_after_switch", "switch_on_sector_boundary", "lazy_ls_between_blocks", "foreign_seek_to_expected_position",
-                   "stereo_pair_client", "reversed_stream_client", "mdf_container", "cdda", "roland", "akai", "same_sample_second_view"]
+                   "switch_after_seek", "stereo_pair_client", "reversed_stream_client", "mdf_container", "cdda", "roland", "akai", "same_sample_second_view"]
 SHRINK = {"max_attempts": 150, "max_seconds": 120.0, "simple_values": {"policy": ["contiguous"], "block": [4096]}}
 
 
@@ -55,7 +55,7 @@ def _reader_script(rng: random.Random, L: int, align: int, sector: int) -> List[
     ops = []
     pos = 0
     for _ in range(rng.randint(2, 14)):
-        if rng.random() < 0.3:
+        if rng.random() < 0.4:
             t = rng.choice([0, L, rng.randint(0, L), (rng.randint(0, L) // max(1, sector)) * sector])
             t = (t // align) * align
             ops.append(["seek", t, 0])
@@ -70,7 +70,7 @@ def _reader_script(rng: random.Random, L: int, align: int, sector: int) -> List[
 
 
 def gen(rng: random.Random, tier: str, index: int) -> dict:
-    fmt = weighted(rng, [("akai", 5), ("akai2352", 2), ("roland", 3), ("cdda", 2)])
+    fmt = weighted(rng, [("akai", 4), ("akai2352", 2), ("roland", 3), ("cdda", 3)])
     if fmt in ("akai", "akai2352"):
         model = gen_akai(rng, max_parts=2, max_vols=3, max_files=5, min_files=1, programs=True, big=(fmt == "akai"))
     elif fmt == "roland":
@@ -263,6 +263,7 @@ class RClient(Client):
         op = ops[self.i]
         self.i += 1
         L = len(self.expected)
+        self.just_seeked = op[0] == "seek"
         if op[0] == "seek":
             exp = min(max(op[1], 0), L)
             got = self.stream.seek(op[1], op[2])
@@ -478,7 +479,12 @@ def run(sc: dict) -> RunResult:
                     inter, d = divmod(inter, len(runnable))
                     c = runnable[d]
                 else:
-                    if last is not None and not last.done and len(runnable) > 1 and rng.random() > sc.get("switch_bias", 0.8):
+                    others = [x for x in runnable if x is not last and isinstance(x, (TClient, RClient))]
+                    if last is not None and getattr(last, "just_seeked", False) and others and rng.random() < 0.8:
+                        # in-flight state: a stream was just positioned but not read - let another data client run now
+                        c = rng.choice(others)
+                        res.probes["switch_after_seek"] += 1
+                    elif last is not None and not last.done and len(runnable) > 1 and rng.random() > sc.get("switch_bias", 0.8):
                         c = last
                     else:
                         c = rng.choice(runnable)
